@@ -12303,6 +12303,28 @@ func (p *parser) visitClass(nameScopeLoc logger.Loc, class *js_ast.Class, defaul
 	// lowering info because that may have changed other decisions too
 	if recomputeClassLoweringInfo {
 		classLoweringInfo = p.computeClassLoweringInfo(class)
+
+		// The names flagged above may have turned on "lowerAllStaticFields" only
+		// now. Static fields and static blocks are then moved after the class
+		// body, where no private name of this class is in scope, so every private
+		// member must be lowered as well (same reasoning as above).
+		if classLoweringInfo.lowerAllStaticFields {
+			movesStaticCode := false
+			for _, prop := range class.Properties {
+				if prop.Kind == js_ast.PropertyClassStaticBlock || (prop.Flags.Has(js_ast.PropertyIsStatic) && !prop.Kind.IsMethodDefinition()) {
+					movesStaticCode = true
+					break
+				}
+			}
+			if movesStaticCode {
+				for _, prop := range class.Properties {
+					if private, ok := prop.Key.Data.(*js_ast.EPrivateIdentifier); ok {
+						p.symbols[private.Ref.InnerIndex].Flags |= ast.PrivateSymbolMustBeLowered
+					}
+				}
+				classLoweringInfo = p.computeClassLoweringInfo(class)
+			}
+		}
 	}
 
 	p.pushScopeForVisitPass(js_ast.ScopeClassName, nameScopeLoc)
